@@ -66,9 +66,35 @@ def judge(res, facts, inject, label, base, cnt):
     return out
 
 
+def run_multi_evict(case):
+    """The request whose arrival makes the pool close other connections (expired idle ones), cancelled at every suspension
+    point - also inside those closes, which belong to its first assignment pass (enumeration shared with C06): afterwards
+    the pool counts no request, holds no stuck connection, and a follow-up request gets a connection."""
+    from .c06 import run_multi_evict as run
+    res = run(case)
+    cnt = {k: 0 for k in REQUIRED}
+    cnt["runs"] = res["counters"]["runs"]
+    cnt["cancels_fired"] = res["counters"]["cancels_fired"]
+    viol = []
+    for e in res.get("extras", []):
+        cnt["oracle_p1"] += 1
+        cnt["oracle_p3"] += 1
+        c = e.get("counts", {})
+        key = None
+        if c.get("req_active") or c.get("req_queued"):
+            key, what = f"evicting|request-still-counted|cancel:{e['style']}|pool.close-connections", f"pool counts {c}; connections {e.get('conns')}"
+        elif e.get("followup") != "ok":
+            key, what = f"evicting|capacity-lost|cancel:{e['style']}|pool.close-connections", f"follow-up request: {e.get('followup')}; connections {e.get('conns')}"
+        if key and not any(x["key"] == key for x in viol):
+            viol.append({"key": key, "what": what, "detail": {k: e[k] for k in ("n_idle", "style", "k", "counts", "conns", "followup")}})
+    return {"viol": viol, "counters": cnt, "sigs": res["sigs"], "sample": None}
+
+
 def run_case(case):
+    if case.get("multi_evict"):
+        return run_multi_evict(case)
     return run_enumeration(case, judge, {"oracle_p1": 0, "oracle_p2": 0, "oracle_p3": 0, "oracle_cocaller": 0, "cocaller_shared_fate": 0})
 
 
 def plan(tier, seed):
-    return plan_cases(tier, seed)
+    return plan_cases(tier, seed) + [{"multi_evict": True, "flavor": fl} for fl in ("asyncio", "trio")]
